@@ -29,6 +29,7 @@ RULE = (
     "a field-renaming pipeline). Non-trivial = name overlap between both sides, or a pattern on "
     "either side, or >= 2 filters."
 )
+RULE += (" " + 'Rule lists also name rules by non-canonical UUID spellings (upper case, braces, urn:uuid:, no dashes).')
 ASSUMPTIONS = [
     "vf/ref is the specification of rule and filter conditions; atoms independent",
     "the library's random prefix is drawn from random.choices; the case fixes random.seed",
